@@ -372,7 +372,22 @@ def loop_frame(body_text):
     for m in re.finditer(r'\*\s*(?:--|\+\+)?\s*([A-Za-z_]\w*)\s*(?:[-+*/%&|^]|<<|>>)?=(?!=)', txt):
         roots.add(m.group(1))
         through.add(m.group(1))
-    decls = set(m.group(1) for m in _DECL_RE.finditer(txt))
+    decls = set()
+    for m in _DECL_RE.finditer(txt):
+        decls.add(m.group(1))
+        # further declarators of the same declaration: `T a = x, b = y;`
+        k = m.end()
+        depth = 0
+        while k < len(txt) and not (txt[k] == ';' and depth == 0):
+            if txt[k] in '([{':
+                depth += 1
+            elif txt[k] in ')]}':
+                depth -= 1
+            elif txt[k] == ',' and depth == 0:
+                m2 = re.match(r'\s*\*?\s*([A-Za-z_]\w*)\s*(?:=|,|;|\[)', txt[k + 1:])
+                if m2:
+                    decls.add(m2.group(1))
+            k += 1
     calls = set(m.group(1) for m in _CALL_RE.finditer(txt)) - _NOT_CALLS
     return roots, decls, calls, through
 
